@@ -38,6 +38,21 @@ impl Rng {
         (0..n).map(|_| self.next_u64() as u8).collect()
     }
 
+    /// Start-of-case clock in ms.  Mostly the small base the cases always used (`lo` + below(`spread`)); one case in
+    /// five runs at an epoch-scale clock (what `now_ms()` returns in production, ~1.79e12) and one in five starts a
+    /// few seconds BEFORE a multiple of 2^32 ms, so that the case crosses the point where the low 32 bits of the
+    /// clock roll over (a stamp narrowed to u32 / compared with a saturating subtraction goes wrong only there).
+    pub fn time_base(&mut self, lo: u64, spread: u64) -> u64 {
+        match self.below(5) {
+            0 => 1_790_000_000_000 + self.below(1_000_000_000),
+            1 => {
+                let k = *self.pick(&[1u64, 2, 417]);
+                (k << 32) - 1 - self.below(12_000)
+            }
+            _ => lo + self.below(spread),
+        }
+    }
+
     /// Fork an independent stream (per case), so case `k` replays alone.
     pub fn fork(&mut self, k: u64) -> Rng {
         Rng::new(self.0 ^ k.wrapping_mul(0xD6E8_FEB8_6659_FD93))
